@@ -167,6 +167,11 @@ impl<L: Flat + Length> Walk for FlatString<L> {
 impl<T: Flat + Walk + ?Sized, L: Flat + Length> Walk for FlexVec<T, L> {
     fn walk(&self, out: &mut String, caps: bool) {
         out.push_str("F[");
+        // `len()` and `is_empty()` agree with what the iterator yields
+        let n = self.iter().count();
+        if self.len() != n || self.is_empty() != (n == 0) {
+            out.push_str("!LEN");
+        }
         for (i, x) in self.iter().enumerate() {
             if i > 0 {
                 out.push(' ');
@@ -193,10 +198,21 @@ pub enum D {
     Struct(Vec<Vec<u8>>, Box<D>),
     /// unsized enum: variant index, sized field images, optional unsized last field
     Enum(usize, Vec<Vec<u8>>, Option<Box<D>>),
-    /// `default_emplacer()`
-    Default,
+    /// the library's default path (`default_emplacer()`, `push_default`, a send guard's `default_in_place`); the payload is the
+    /// documented default written as an explicit initialiser (what the model runs and what the result is compared with)
+    Def(Box<D>),
 }
 impl D {
+    /// the explicit initialiser: `Def` wrappers removed at every level (the abstract state of the operation histories)
+    pub fn strip_def(&self) -> D {
+        match self {
+            D::Def(x) => x.strip_def(),
+            D::FlexIter(v) => D::FlexIter(v.iter().map(|x| x.strip_def()).collect()),
+            D::Struct(f, l) => D::Struct(f.clone(), Box::new(l.strip_def())),
+            D::Enum(i, f, Some(l)) => D::Enum(*i, f.clone(), Some(Box::new(l.strip_def()))),
+            other => other.clone(),
+        }
+    }
     pub fn text(&self) -> String {
         fn hs(v: &[Vec<u8>]) -> String {
             v.iter().map(|x| format!(" {}", hex(x))).collect()
@@ -212,7 +228,7 @@ impl D {
             D::Struct(f, l) => format!("(us{} {})", hs(f), l.text()),
             D::Enum(i, f, None) => format!("(ue {}{})", i, hs(f)),
             D::Enum(i, f, Some(l)) => format!("(ue {}{} {})", i, hs(f), l.text()),
-            D::Default => "(def)".into(),
+            D::Def(x) => format!("(def {})", x.text()),
         }
     }
 }
@@ -227,6 +243,41 @@ pub trait DynTarget: Flat {
     /// # Safety
     /// as `Emplacer::emplace_unchecked`
     unsafe fn dyn_emplace<'a>(d: &D, bytes: &'a mut [u8]) -> Result<&'a mut Self, Error>;
+    /// `FlexVec::push_default`, for item types that have a default (`None`: the type has none)
+    fn flex_push_default<L: Flat + Length>(_v: &mut FlexVec<Self, L>) -> Option<Result<(), Error>> {
+        None
+    }
+    /// `UninitSendGuard::default_in_place` of the blocking sender (`Err(guard)`: the type has no default)
+    fn send_default<'a, B: flatty_io::blocking::WriteBuffer>(
+        g: flatty_io::blocking::UninitSendGuard<'a, Self, B>,
+    ) -> Result<Result<flatty_io::blocking::SendGuard<'a, Self, B>, Error>, flatty_io::blocking::UninitSendGuard<'a, Self, B>> {
+        Err(g)
+    }
+    /// the same for the async sender
+    fn asend_default<'a, B: flatty_io::async_::AsyncWriteBuffer>(
+        g: flatty_io::async_::UninitSendGuard<'a, Self, B>,
+    ) -> Result<Result<flatty_io::async_::SendGuard<'a, Self, B>, Error>, flatty_io::async_::UninitSendGuard<'a, Self, B>> {
+        Err(g)
+    }
+}
+/// the three default hooks of `DynTarget` for a type that implements `FlatDefault` (pasted into its `impl DynTarget`)
+#[macro_export]
+macro_rules! default_hooks {
+    () => {
+        fn flex_push_default<L_: Flat + Length>(v: &mut FlexVec<Self, L_>) -> Option<Result<(), Error>> {
+            Some(v.push_default().map(|_| ()))
+        }
+        fn send_default<'a_, B_: flatty_io::blocking::WriteBuffer>(
+            g: flatty_io::blocking::UninitSendGuard<'a_, Self, B_>,
+        ) -> Result<Result<flatty_io::blocking::SendGuard<'a_, Self, B_>, Error>, flatty_io::blocking::UninitSendGuard<'a_, Self, B_>> {
+            Ok(g.default_in_place())
+        }
+        fn asend_default<'a_, B_: flatty_io::async_::AsyncWriteBuffer>(
+            g: flatty_io::async_::UninitSendGuard<'a_, Self, B_>,
+        ) -> Result<Result<flatty_io::async_::SendGuard<'a_, Self, B_>, Error>, flatty_io::async_::UninitSendGuard<'a_, Self, B_>> {
+            Ok(g.default_in_place())
+        }
+    };
 }
 pub struct DE<'d, T: ?Sized>(pub &'d D, PhantomData<T>);
 pub fn de<'d, T: ?Sized>(d: &'d D) -> DE<'d, T> {
@@ -263,31 +314,34 @@ macro_rules! from_array_n {
     };
 }
 impl<T: Flat + Sized, L: Flat + Length> DynTarget for FlatVec<T, L> {
+    default_hooks!();
     unsafe fn dyn_emplace<'a>(d: &D, bytes: &'a mut [u8]) -> Result<&'a mut Self, Error> {
         match d {
             D::VecEmpty => vec::Empty.emplace_unchecked(bytes),
             D::VecIter(v) => vec::FromIterator(v.iter().map(|x| from_raw::<T>(x))).emplace_unchecked(bytes),
             D::VecArr(v) => from_array_n!(v, bytes, T, 0, 1, 2, 3, 4, 5, 6, 7, 8, 9, 10, 11, 12),
-            D::Default => <Self as DynDefault>::dyn_default(bytes),
+            D::Def(_) => <Self as DynDefault>::dyn_default(bytes),
             _ => panic!("harness: bad initialiser for FlatVec"),
         }
     }
 }
 impl<L: Flat + Length> DynTarget for FlatString<L> {
+    default_hooks!();
     unsafe fn dyn_emplace<'a>(d: &D, bytes: &'a mut [u8]) -> Result<&'a mut Self, Error> {
         match d {
             D::StrFrom(v) => string::FromStr(std::str::from_utf8(v).expect("harness: initialiser is not UTF-8")).emplace_unchecked(bytes),
-            D::Default => <Self as DynDefault>::dyn_default(bytes),
+            D::Def(_) => <Self as DynDefault>::dyn_default(bytes),
             _ => panic!("harness: bad initialiser for FlatString"),
         }
     }
 }
 impl<T: DynTarget + ?Sized, L: Flat + Length> DynTarget for FlexVec<T, L> {
+    default_hooks!();
     unsafe fn dyn_emplace<'a>(d: &D, bytes: &'a mut [u8]) -> Result<&'a mut Self, Error> {
         match d {
             D::FlexEmpty => flex::Empty.emplace_unchecked(bytes),
             D::FlexIter(v) => flex::FromIterator::new(v.iter().map(|x| de::<T>(x))).emplace_unchecked(bytes),
-            D::Default => <Self as DynDefault>::dyn_default(bytes),
+            D::Def(_) => <Self as DynDefault>::dyn_default(bytes),
             _ => panic!("harness: bad initialiser for FlexVec"),
         }
     }
@@ -317,6 +371,10 @@ pub trait TypeOps: Sync {
     fn new_in_place(&self, bytes: &mut [u8], d: &D) -> Result<(), Error>;
     /// the same through `FlatWrap::new_in_place` over `&mut [u8]`; on `Ok`, `size()` read through the wrapper's `Deref`
     fn wrap_new_in_place(&self, bytes: &mut [u8], d: &D) -> Result<usize, Error>;
+    /// `FlatWrap::from_wrapped_bytes` over the same bytes: `(size(), as_bytes().len())` seen through the wrapper
+    fn wrap_probe(&self, bytes: &[u8]) -> Result<(usize, usize), Error>;
+    /// `FlatWrap::default_in_place` (types with a default): `size()` seen through the wrapper
+    fn wrap_default_in_place(&self, bytes: &mut [u8]) -> Option<Result<usize, Error>>;
     /// `from_mut_bytes` (must succeed) then `assign_in_place`
     fn assign_in_place(&self, bytes: &mut [u8], d: &D) -> Result<Result<(), Error>, Error>;
     fn default_in_place(&self, bytes: &mut [u8]) -> Option<Result<(), Error>>;
@@ -333,6 +391,7 @@ pub struct Ops<T: ?Sized> {
     pub desc: &'static str,
     pub flags: &'static str,
     pub default: Option<unsafe fn(&mut [u8]) -> Result<(), Error>>,
+    pub wrap_default: Option<fn(&mut [u8]) -> Result<usize, Error>>,
     /// the real `push_slice` / `resize` (they need `T: Clone`), for element types that are `Clone`
     pub clone_ops: Option<fn(&mut [u8], &Op) -> Option<String>>,
     pub _p: PhantomData<fn(&T)>,
@@ -385,8 +444,21 @@ impl<T: Flat + Walk + DynTarget + Editable + ?Sized> TypeOps for Ops<T> {
         T::new_in_place(bytes, de::<T>(d)).map(|_| ())
     }
     fn wrap_new_in_place(&self, bytes: &mut [u8], d: &D) -> Result<usize, Error> {
-        let w = flatty::FlatWrap::<T, &mut [u8]>::new_in_place(bytes, de::<T>(d))?;
-        Ok(w.size())
+        let n = bytes.len();
+        let mut w = flatty::FlatWrap::<T, &mut [u8]>::new_in_place(bytes, de::<T>(d))?;
+        let z = w.size();
+        // the same value through `DerefMut`, and the pointer comes back unchanged
+        let z2 = { let m: &mut T = &mut *w; m.size() };
+        let back = w.into_inner();
+        Ok(if z2 == z && back.len() == n { z } else { usize::MAX })
+    }
+    fn wrap_probe(&self, bytes: &[u8]) -> Result<(usize, usize), Error> {
+        let w = flatty::FlatWrap::<T, &[u8]>::from_wrapped_bytes(bytes)?;
+        Ok((w.size(), w.as_bytes().len()))
+    }
+    fn wrap_default_in_place(&self, bytes: &mut [u8]) -> Option<Result<usize, Error>> {
+        let f = self.wrap_default?;
+        Some(f(bytes))
     }
     fn assign_in_place(&self, bytes: &mut [u8], d: &D) -> Result<Result<(), Error>, Error> {
         let v = T::from_mut_bytes(bytes)?;
@@ -409,6 +481,10 @@ impl<T: Flat + Walk + DynTarget + Editable + ?Sized> TypeOps for Ops<T> {
         let f = self.default?;
         Some(unsafe { f(bytes) })
     }
+}
+pub fn wrap_default_fn<T: FlatDefault + ?Sized>(bytes: &mut [u8]) -> Result<usize, Error> {
+    let w = flatty::FlatWrap::<T, &mut [u8]>::default_in_place(bytes)?;
+    Ok(w.size())
 }
 pub unsafe fn default_fn<T: FlatDefault + ?Sized>(bytes: &mut [u8]) -> Result<(), Error> {
     T::default_in_place(bytes).map(|_| ())
@@ -473,7 +549,7 @@ fn parse_d_at(t: &[String], i: &mut usize) -> D {
             let f = take_hexes(t, i);
             if t[*i] == ")" { D::Enum(idx, f, None) } else { let l = parse_d_at(t, i); D::Enum(idx, f, Some(Box::new(l))) }
         }
-        "def" => D::Default,
+        "def" => { let x = parse_d_at(t, i); D::Def(Box::new(x)) }
         h => panic!("bad initialiser head {h}"),
     };
     assert_eq!(t[*i], ")");
@@ -578,6 +654,7 @@ impl<L: Flat + Length> Editable for FlatString<L> {
 impl<T: Editable + ?Sized, L: Flat + Length> Editable for FlexVec<T, L> {
     fn edit(&mut self, op: &Op) -> String {
         match op {
+            Op::FPush(D::Def(_)) => match T::flex_push_default(self).expect("harness: push_default on an item type without a default") { Ok(()) => "ok".into(), Err(e) => format!("err:{}", err_str(&e)) },
             Op::FPush(d) => match self.push(de::<T>(d)) { Ok(_) => "ok".into(), Err(e) => format!("err:{}", err_str(&e)) },
             Op::FPop => match self.pop() { Ok(()) => "ok".into(), Err(_) => "empty".into() },
             Op::FTruncate(n) => { self.truncate(*n); "ok".into() }
